@@ -91,6 +91,9 @@ VARIANTS = {
         'cached finders keep hooking after the hook was removed'),
     'clear-caches-half': tseeded(IMP, lambda t: replace_where(
         t, src_is('path_importer_cache.clear()'), lambda n: None, scope='_clear_importlib_caches'), 'C06.R5'),
+    'blacklisted-leaf-recognised-by-emptiness': tseeded(TRIE, lambda t: replace_where(
+        t, lambda n: isinstance(n, ast.Compare) and ast.unparse(n) == 'subpackages_trie_blacklist is PackagesTrieBlacklisted',
+        lambda n: expr('not subpackages_trie_blacklist'), scope='is_package_blacklisted'), 'C06.R2', 'seeded C06-21'),
     # ---- neutral --------------------------------------------------------------------------
     'n-roundtrip-main': roundtrip(MAIN),
     'n-roundtrip-trie': roundtrip(TRIE),
